@@ -55,6 +55,27 @@ SimNext == \/ /\ Len(hist) < MaxHist
            \/ Finish
 SimSpec == Init /\ [][SimNext]_vars
 
+\* ---- C04: behaviours for the torn-tail enumeration: direct commands only; every step carries the
+\* state after it (what a log torn just after this command must recover to) and the state after one
+\* further acknowledged write Extra (what a second restart must then show)
+Extra == [op |-> "set", k |-> KeySeq[Len(KeySeq)], id |-> IdSeq[Len(IdSeq)], g |-> "g:P2", fu |-> <<>>,
+          ex |-> FALSE, cond |-> "-"]
+TornExec(c) == LET r == Apply(st, c) IN
+           /\ Generable(st, c)
+           /\ st' = r.st
+           /\ log' = IF r.upd /\ c.op \notin Unlogged THEN Append(log, c) ELSE log
+           /\ hist' = Append(hist, [e |-> "cmd", c |-> c, via |-> "direct", rr |-> r.rr, upd |-> r.upd,
+                                    post |-> r.st, postx |-> Apply(r.st, Extra).st])
+           /\ UNCHANGED done
+TornOps == <<"set", "set", "set", "set", "fset", "fset", "del", "pdel", "drop", "rename", "expire", "persist",
+             "jset", "jset", "jdel", "sethook", "sethook", "delhook", "flushdb", "get">>
+TornFinish == /\ Len(hist) >= MaxHist /\ ~done /\ done' = TRUE /\ UNCHANGED <<st, log, hist>>
+              /\ PrintT(<<"TR", ToJson([h |-> hist, post |-> st, empty |-> EmptyState,
+                                        emptyx |-> Apply(EmptyState, Extra).st, extra |-> Extra])>>)
+TornNext == \/ /\ Len(hist) < MaxHist /\ \E j \in 1..Len(TornOps) : TornExec(SimCmd(TornOps[j]))
+            \/ TornFinish
+TornSpec == Init /\ [][TornNext]_vars
+
 \* exhaustive design check over a small alphabet (no RandomElement): see AOFDesign below
 RestartEquivalence == Replay(log) = st
 =============================================================================
